@@ -303,6 +303,13 @@ TARGETED = [
     # COMMENT without WHITESPACE, WHITESPACE without COMMENT, non-silent ones followed by tokens
     'COMMENT = _{ "/*" ~ (!"*/" ~ ANY)* ~ "*/" }\na = { "a" }\nb = { "b" }\npair = { a ~ b }\nmany = { a* }\nagain = !{ a ~ b }\nreenter = @{ again }',
     'WHITESPACE = @{ " " }\nCOMMENT = @{ "#" ~ (\'a\'..\'c\')* ~ "#" }\na = { "a" }\nb = { "b" }\npair = { a ~ b }\nlist = { a* }\nfile = { SOI ~ a ~ b ~ EOI }',
+    # a skip rule that touches the stack and fails half-way (COMMENT only / WHITESPACE only / both)
+    'COMMENT = _{ "#" ~ PUSH("=") ~ "#" ~ POP }\nword = @{ ASCII_ALPHA+ }\nmain = { PUSH(word) ~ ("-" | "#" | "=")* ~ POP }\nlevel = { PUSH(word) ~ ("-" | "#" | "=")* ~ PEEK_ALL }',
+    'WHITESPACE = _{ " " ~ PUSH("=")? ~ "." }\nword = @{ ASCII_ALPHA+ }\nmain = { PUSH(word) ~ (" " | "=")* ~ POP }',
+    # repetitions whose iterations consume nothing but change the stack (they end when the stack is empty)
+    'clear = { PUSH("a") ~ PUSH("b") ~ DROP* ~ PEEK_ALL ~ "c" }\nclear_opt = { PUSH("a") ~ PUSH("b") ~ DROP* ~ PEEK_ALL ~ "a"? }\nindent = { PUSH(" "*) ~ "x" }\nunwind = { PUSH("zz") ~ indent ~ indent ~ POP* }\npops = ${ PUSH("a") ~ PUSH("") ~ POP+ ~ "b" }',
+    # a succeeding look-ahead that touches the stack, followed by a repetition over the stack (ends only if the predicate restored)
+    'fence = { PUSH("ab") ~ &(PUSH(" "*) ~ "ab") ~ PEEK* ~ DROP }\nlk = ${ PUSH("a") ~ &(POP ~ PUSH("b")) ~ PEEK ~ "b"? }\nlook = { &PUSH("a") ~ "a" ~ PEEK_ALL ~ "b" }\nlookA = @{ &PUSH("a") ~ "a" ~ PEEK_ALL ~ "b" }',
     # zero-width tokens under an optional
     'call = { name ~ "(" ~ args? ~ ")" }\nname = { "f" }\nargs = { (arg ~ ("," ~ arg)*)? }\narg = { "1" }\ntail = { "x"* }\nm = { "y" ~ tail? }\nend = { "a" ~ EOI? }',
     # insensitive / ranges / multi-byte
